@@ -227,6 +227,13 @@ fn check(x: &Exchange, rep: &mut Report) {
 /// judged on its own slice of the port's event log, so anything a message leaves behind for the next one (stale
 /// bytes, a half-consumed line) shows up on that next message.
 fn check_session(msgs: &[RefMsg], write_script: Vec<WriteAct>, write_default: WriteAct, rng: &mut Rng, rep: &mut Report) {
+    check_session_rf(msgs, write_script, write_default, 0, rng, rep)
+}
+
+/// `n_read_faults`: that many read faults (hard error / premature end of stream / interrupt, each firing once) are
+/// placed at random positions of the reply tape. After a failed read the session goes on: the next exchange that reads
+/// starts wherever the stream now stands, and is judged on exactly that.
+fn check_session_rf(msgs: &[RefMsg], write_script: Vec<WriteAct>, write_default: WriteAct, n_read_faults: usize, rng: &mut Rng, rep: &mut Report) {
     let mut tape = vec![];
     for m in msgs {
         if reply_due(m) {
@@ -243,11 +250,24 @@ fn check_session(msgs: &[RefMsg], write_script: Vec<WriteAct>, write_default: Wr
         }
     }
     tape.extend_from_slice(SENTINEL);
-    let sig = format!("session|{}|w{:?}/{:?}|{}", msgs.iter().map(|m| m.show()).collect::<Vec<_>>().join(";"), write_script, write_default, hex(&tape));
+    let mut read_faults: Vec<(usize, ReadFault, usize)> = vec![];
+    let mut read_boundaries: Vec<usize> = vec![];
+    if n_read_faults > 0 {
+        for _ in 0..n_read_faults {
+            let at = rng.usize(tape.len() - SENTINEL.len() + 1);
+            if read_faults.iter().all(|f| f.0 != at) {
+                read_faults.push((at, *rng.pick(&[ReadFault::Fail(io::ErrorKind::TimedOut), ReadFault::Fail(io::ErrorKind::Other), ReadFault::Eof, ReadFault::Interrupted]), 1));
+            }
+        }
+        for _ in 0..rng.usize(4) {
+            read_boundaries.push(rng.usize(tape.len()));
+        }
+    }
+    let sig = format!("session|{}|w{:?}/{:?}|r{:?}|{}", msgs.iter().map(|m| m.show()).collect::<Vec<_>>().join(";"), write_script, write_default, read_faults, hex(&tape));
     rep.case(Some(fnv(sig.as_bytes())));
     rep.count("sessions");
     let st = doubles::shared(doubles::WEIRD_SETTINGS);
-    let port = InstrPort::scripted(st.clone(), FragReader::plain(tape.clone()), FragWriter::new(write_script.clone(), write_default));
+    let port = InstrPort::scripted(st.clone(), FragReader::new(tape.clone(), read_boundaries, read_faults.clone()), FragWriter::new(write_script.clone(), write_default));
     let mut bus = SerialSignBus::try_new(port).expect("port setup");
     let mut transcript: Vec<String> = vec![];
     for (k, m) in msgs.iter().enumerate() {
@@ -291,7 +311,35 @@ fn check_session(msgs: &[RefMsg], write_script: Vec<WriteAct>, write_default: Wr
                     if written != want {
                         bad.push(("wrong_bytes_written", format!("message #{} ({}) wrote [{}] expected [{}]", k, m.show(), show_bytes(&written), show_bytes(&want))));
                     }
-                    if reply_due(m) {
+                    let hard_read_fault = events.iter().any(|e| matches!(&e.ev, PortEv::Read { returned: Err(k), .. } if *k != io::ErrorKind::Interrupted));
+                    let eof_seen = events.iter().any(|e| matches!(&e.ev, PortEv::Read { requested, returned: Ok(0) } if *requested > 0));
+                    if reply_due(m) && (hard_read_fault || eof_seen) {
+                        // the read was cut short: never more than the line may be gone, a hard error must surface, and
+                        // a premature end of stream leaves exactly the bytes that were delivered to decode
+                        let line_end = tape[pos0..].iter().position(|b| *b == b'\n').map(|i| pos0 + i + 1).unwrap_or(tape.len());
+                        rep.count("session_read_faults_hit");
+                        if pos1 > line_end {
+                            bad.push(("not_exactly_one_line_consumed", format!("message #{} consumed {} bytes although its read was cut short; the reply line has {}", k, pos1 - pos0, line_end - pos0)));
+                        } else if hard_read_fault {
+                            if result.is_ok() {
+                                bad.push(("read_failure_not_an_error", format!("message #{}: the port's read failed but the result is {:?}", k, result)));
+                            }
+                        } else {
+                            match refs::dec(&tape[pos0..pos1]) {
+                                Dec::Ok { addr, ty, data } => {
+                                    let wantr = refs::classify(addr, ty, &data);
+                                    if *result != Ok(Some(wantr.clone())) {
+                                        bad.push(("wrong_reply", format!("message #{}: result {:?}; the stream ended after [{}], which decodes to {}", k, result, show_bytes(&tape[pos0..pos1]), wantr.show())));
+                                    }
+                                }
+                                _ => {
+                                    if result.is_ok() {
+                                        bad.push(("undecodable_reply_not_an_error", format!("message #{}: result {:?} although the stream ended after [{}]", k, result, show_bytes(&tape[pos0..pos1]))));
+                                    }
+                                }
+                            }
+                        }
+                    } else if reply_due(m) {
                         let line_end = tape[pos0..].iter().position(|b| *b == b'\n').map(|i| pos0 + i + 1).unwrap_or(tape.len());
                         if pos1 != line_end {
                             bad.push(("not_exactly_one_line_consumed", format!("message #{} consumed {} bytes, the next reply line has {}", k, pos1 - pos0, line_end - pos0)));
@@ -383,6 +431,11 @@ fn sessions(ctx: &Ctx, shard: usize, n: u64, rep: &mut Report) {
             }
         }
         check_session(&msgs, script, WriteAct::Accept(size), &mut rng, rep);
+        // the same kind of session with read faults instead (replies cut short, then the session goes on)
+        let k = 3 + rng.usize(4);
+        let msgs: Vec<RefMsg> = (0..k).map(|_| if rng.bool() { RefMsg::Query(3) } else { pool(&mut rng) }).collect();
+        let n_faults = 1 + rng.usize(2);
+        check_session_rf(&msgs, vec![], WriteAct::Accept(usize::MAX), n_faults, &mut rng, rep);
     }
 }
 
@@ -592,6 +645,7 @@ pub fn run(ctx: &Ctx) -> Outcome {
     }
     floors.push(floor("write failures hit", report.get("write_failures_injected_and_hit") > 0, report.get("write_failures_injected_and_hit")));
     floors.push(floor("read failures hit", report.get("read_failures_injected_and_hit") > 0, report.get("read_failures_injected_and_hit")));
+    floors.push(floor("sessions that go on after a reply was cut short (read error / end of stream mid-session)", report.get("session_read_faults_hit") > 500, report.get("session_read_faults_hit")));
     floors.push(floor("multi-message sessions on one bus (write failure at every call index + random)", report.get("session_core_done") == 1 && report.get("sessions") > 1000 && report.get("session_write_failures_hit") > 100, report.get("sessions")));
     floors.push(floor("fault-at-every-index case lists ran", report.get("cases/write_fault_each_call") > 50 && report.get("cases/read_fault_each_position") > 100 && report.get("cases/read_fragmentation") == 4096, report.get("cases/read_fault_each_position")));
     let sizes: Vec<J> = {
